@@ -34,8 +34,9 @@ async fn main() {
     let create = FileEventKind::Create(CreateKind::File);
     // (explicit options, probes: (label, file name, event kind))
     let variants: Vec<(Vec<OsString>, Vec<(&str, &str, FileEventKind)>)> = vec![
-        (vec!["--ignore-file".into(), fx.join("ig.txt").into(), "--ignore".into(), "*.ip".into()],
-         vec![("gg", "a.gg", modify), ("ga", "a.ga", modify), ("pv", "a.pv", modify), ("pg", "a.pg", modify), ("gc", "a.gc", modify), ("ex", "a.ex", modify), ("pyc", "a.pyc", modify), ("ip", "a.ip", modify), ("ok", "a.ok", modify), ("keep", "keep.gg", modify)]),
+        // (`--ignore '!keep.pyc'`: a negated explicit pattern re-includes a path one of the BUILT-IN defaults ignores — the explicit patterns come last)
+        (vec!["--ignore-file".into(), fx.join("ig.txt").into(), "--ignore".into(), "*.ip".into(), "--ignore".into(), "!keep.pyc".into()],
+         vec![("gg", "a.gg", modify), ("ga", "a.ga", modify), ("pv", "a.pv", modify), ("pg", "a.pg", modify), ("gc", "a.gc", modify), ("ex", "a.ex", modify), ("pyc", "a.pyc", modify), ("ip", "a.ip", modify), ("ok", "a.ok", modify), ("keep", "keep.gg", modify), ("kpyc", "keep.pyc", modify)]),
         (vec!["--filter".into(), "*.fl".into(), "--ignore-file".into(), fx.join("ig.txt").into()], vec![("fl", "a.fl", modify), ("ok", "a.ok", modify), ("ex", "a.ex", modify)]),
         (vec!["--filter-file".into(), fx.join("ff.txt").into()], vec![("ff", "a.ff", modify), ("ok", "a.ok", modify)]),
         (vec!["--exts".into(), "rs,toml".into(), "--ignore".into(), "b.*".into()], vec![("rs", "a.rs", modify), ("toml", "a.toml", modify), ("brs", "b.rs", modify), ("ok", "a.ok", modify)]),
@@ -43,7 +44,7 @@ async fn main() {
         // every explicit option ALONE (nothing else that would keep a pattern list non-empty)
         (vec!["--exts".into(), "rs,toml".into()], vec![("rs", "a.rs", modify), ("toml", "a.toml", modify), ("ok", "a.ok", modify)]),
         (vec!["--filter".into(), "*.fl".into()], vec![("fl", "a.fl", modify), ("ok", "a.ok", modify)]),
-        (vec!["--ignore".into(), "*.ip".into()], vec![("ip", "a.ip", modify), ("ok", "a.ok", modify)]),
+        (vec!["--ignore".into(), "*.ip".into(), "--ignore".into(), "!keep.pyc".into()], vec![("ip", "a.ip", modify), ("ok", "a.ok", modify), ("kpyc", "keep.pyc", modify)]),
         (vec!["--ignore-file".into(), fx.join("ig.txt").into()], vec![("ex", "a.ex", modify), ("ok", "a.ok", modify), ("keep", "keep.gg", modify)]),
     ];
     let mut cases = std::fs::File::create(out("cases.txt")).unwrap();
